@@ -17,6 +17,7 @@ CONSTANTS
   Dist = 3
   KD = 2
   Export = TRUE
+  InterpIds = {}
 INVARIANT Telescoping
 INVARIANT HotColdBounds
 INVARIANT FitsInv
